@@ -278,6 +278,16 @@ def value_diff(a, b, tol=None):
             if d is not None:
                 return "[%r] %s" % (k, d)
         return None
+    if isinstance(a, (list, tuple)) or isinstance(b, (list, tuple)):
+        if not (isinstance(a, (list, tuple)) and isinstance(b, (list, tuple))) or type(a) is not type(b):
+            return "%s vs %s" % (type(a).__name__, type(b).__name__)
+        if len(a) != len(b):
+            return "length %d != %d" % (len(a), len(b))
+        for i, (x, y) in enumerate(zip(a, b)):
+            d = value_diff(x, y, tol)
+            if d is not None:
+                return "[%d] %s" % (i, d)
+        return None
     ka, kb = _scalar_kind(a), _scalar_kind(b)
     if ka != kb:
         return "%s %r vs %s %r" % (ka, a, kb, b)
@@ -330,20 +340,39 @@ def freeze(v):
         return numpy.array(v, copy=True)
     if isinstance(v, dict):
         return {k: freeze(x) for k, x in v.items()}
+    if isinstance(v, (list, tuple)):
+        return type(v)(freeze(x) for x in v)
     return v
 
 
 def arrays(obs, prefix=""):
     """Every ndarray reachable from an observation: list of (path, array)."""
     out = []
-    for k, v in obs.items():
+    items = obs.items() if isinstance(obs, dict) else enumerate(obs)
+    for k, v in items:
         if isinstance(k, str) and k.startswith("__"):
             continue
         p = "%s%s" % (prefix, k)
         if isinstance(v, numpy.ndarray):
             out.append((p, v))
-        elif isinstance(v, dict):
+        elif isinstance(v, (dict, list, tuple)):     # nested containers (e.g. free-form hyperparameter dictionaries)
             out.extend(arrays(v, p + "."))
+    return out
+
+
+def containers(v, depth=0):
+    """Every mutable container (dict / list) reachable from ``v``: list of (depth, container)."""
+    out = []
+    if isinstance(v, dict):
+        out.append((depth, v))
+        for k, x in list(v.items()):
+            if not (isinstance(k, str) and k.startswith("__")):
+                out.extend(containers(x, depth + 1))
+    elif isinstance(v, (list, tuple)):
+        if isinstance(v, list):
+            out.append((depth, v))
+        for x in v:
+            out.extend(containers(x, depth + 1))
     return out
 
 
@@ -359,6 +388,10 @@ def digest(obs):
                 if isinstance(k, str) and k.startswith("__") and k not in ("__class__", "__family__"):
                     continue
                 h.update(repr(k).encode()); upd(v[k])
+        elif isinstance(v, (list, tuple)):
+            h.update(type(v).__name__.encode())
+            for x in v:
+                upd(x)
         else:
             h.update(repr(v).encode())
         h.update(b"|")
